@@ -38,7 +38,6 @@
 package context
 
 import (
-	"errors"
 	"math/big"
 
 	"github.com/db47h/decimal"
@@ -194,9 +193,11 @@ func (c *Context) Add(z, x, y *decimal.Decimal) (r *decimal.Decimal) {
 		}
 		defer func() {
 			if err := recover(); err != nil {
-				if !errors.As(err.(error), &c.err) {
-					panic(err)
+				nan, ok := err.(decimal.ErrNaN)
+				if !ok {
+					panic(err) // not a NaN: none of our business
 				}
+				c.err = nan
 				r = z
 			}
 		}()
@@ -212,9 +213,11 @@ func (c *Context) Sub(z, x, y *decimal.Decimal) (r *decimal.Decimal) {
 		}
 		defer func() {
 			if err := recover(); err != nil {
-				if !errors.As(err.(error), &c.err) {
-					panic(err)
+				nan, ok := err.(decimal.ErrNaN)
+				if !ok {
+					panic(err) // not a NaN: none of our business
 				}
+				c.err = nan
 				r = z
 			}
 		}()
@@ -231,9 +234,11 @@ func (c *Context) FMA(z, x, y, u *decimal.Decimal) (r *decimal.Decimal) {
 		}
 		defer func() {
 			if err := recover(); err != nil {
-				if !errors.As(err.(error), &c.err) {
-					panic(err)
+				nan, ok := err.(decimal.ErrNaN)
+				if !ok {
+					panic(err) // not a NaN: none of our business
 				}
+				c.err = nan
 				r = z
 			}
 		}()
@@ -249,9 +254,11 @@ func (c *Context) Mul(z, x, y *decimal.Decimal) (r *decimal.Decimal) {
 		}
 		defer func() {
 			if err := recover(); err != nil {
-				if !errors.As(err.(error), &c.err) {
-					panic(err)
+				nan, ok := err.(decimal.ErrNaN)
+				if !ok {
+					panic(err) // not a NaN: none of our business
 				}
+				c.err = nan
 				r = z
 			}
 		}()
@@ -267,9 +274,11 @@ func (c *Context) Quo(z, x, y *decimal.Decimal) (r *decimal.Decimal) {
 		}
 		defer func() {
 			if err := recover(); err != nil {
-				if !errors.As(err.(error), &c.err) {
-					panic(err)
+				nan, ok := err.(decimal.ErrNaN)
+				if !ok {
+					panic(err) // not a NaN: none of our business
 				}
+				c.err = nan
 				r = z
 			}
 		}()
@@ -308,9 +317,11 @@ func (c *Context) Sqrt(z, x *decimal.Decimal) (r *decimal.Decimal) {
 		}
 		defer func() {
 			if err := recover(); err != nil {
-				if !errors.As(err.(error), &c.err) {
-					panic(err)
+				nan, ok := err.(decimal.ErrNaN)
+				if !ok {
+					panic(err) // not a NaN: none of our business
 				}
+				c.err = nan
 				r = z
 			}
 		}()
